@@ -3,11 +3,13 @@ package main
 import (
 	"bytes"
 	"encoding/base64"
+	"encoding/binary"
 	"fmt"
 	"io"
 	"log"
 	"os"
 	"path/filepath"
+	"strings"
 
 	"github.com/edutko/decipher/internal/file"
 	"github.com/edutko/decipher/internal/openpgp"
@@ -80,6 +82,9 @@ type c07Content struct {
 	// for bundles built from complete segments: the same file without its PGP armor segments
 	withoutPGP []byte
 	bundle     bool
+	// parser name of the spec's signature list whose format this content is a well-formed
+	// instance of BY CONSTRUCTION (c07_formats.go); "" when nothing is claimed
+	wf string
 }
 
 func inspectObs(path string) (Sx, file.Info) {
@@ -97,13 +102,18 @@ func inspectObs(path string) (Sx, file.Info) {
 	return o, got
 }
 
+// c07Neutral is the name no table row and no convention says anything about.
+const c07Neutral = "plain.bin"
+
 func c07Case(c *Ctx, dir string, name string, ct c07Content) {
 	p := filepath.Join(dir, name)
 	if err := os.MkdirAll(filepath.Dir(p), 0o755); err != nil {
-		return
+		fmt.Fprintln(os.Stderr, "c07Case:", err)
+		os.Exit(1)
 	}
 	if err := os.WriteFile(p, ct.data, 0o644); err != nil {
-		return
+		fmt.Fprintln(os.Stderr, "c07Case:", err)
+		os.Exit(1)
 	}
 	defer os.Remove(p)
 	rows := file.VerifFiletypes()
@@ -142,7 +152,19 @@ func c07Case(c *Ctx, dir string, name string, ct c07Content) {
 			}
 		}
 	}
-	c.Emit("inspect:"+ct.tag, SL{S(p), SB(ct.data), oracle, noPGP}, SL{obs, cands})
+	// the same content under the neutral name, in a directory of its own
+	np := filepath.Join(dir, "neutral", c07Neutral)
+	obsNeutral := obs
+	if p != np {
+		os.MkdirAll(filepath.Dir(np), 0o755)
+		if err := os.WriteFile(np, ct.data, 0o644); err != nil {
+			fmt.Fprintln(os.Stderr, "c07Case:", err)
+			os.Exit(1)
+		}
+		obsNeutral, _ = inspectObs(np)
+		os.Remove(np)
+	}
+	c.Emit("inspect:"+ct.tag, SL{S(p), SB(ct.data), oracle, noPGP, S(ct.wf), S(np)}, SL{obs, cands, obsNeutral})
 }
 
 func genC07(c *Ctx) {
@@ -158,6 +180,14 @@ func genC07(c *Ctx) {
 			s += parts[c.R.Intn(len(parts))]
 		}
 		names = append(names, s)
+	}
+	var patterns []string
+	for _, r := range file.VerifFiletypes() {
+		patterns = append(patterns, r.Patterns...)
+	}
+	pool := c07NamePool(patterns)
+	for _, n := range pool {
+		names = append(names, n, "/home/u/"+n, "./"+n, n+"/")
 	}
 	for _, n := range names {
 		preds := file.VerifRowPredicates(n, nil, 0)
@@ -232,7 +262,9 @@ func genC07(c *Ctx) {
 		pgp  bool
 		data []byte
 	}{
-		{true, pgp}, {true, pgpNoCRC},
+		// (the pre-generated keys end without a line terminator: complete the last line, or the END
+		// line runs into the next segment's BEGIN line and that segment is no longer a block)
+		{true, append(bytes.TrimRight(pgp, "\n"), '\n')}, {true, append(bytes.TrimRight(pgpNoCRC, "\n"), '\n')},
 		{true, []byte("-----BEGIN PGP PUBLIC KEY BLOCK-----\n\nAAAA\n-----END PGP PUBLIC KEY BLOCK-----\n")},
 		{true, []byte("-----BEGIN PGP SIGNATURE-----\n\nAAAA\n-----END PGP SIGNATURE-----\n")},
 		{false, pemKey}, {false, fixture("x509/pem/ed25519.pub")},
@@ -291,7 +323,13 @@ func genC07(c *Ctx) {
 		}
 	}
 	fileNames := []string{"plain.bin", "authorized_keys", "known_hosts", "authorized_keys2", "my_known_hosts", "sub/known_hosts", "sub/authorized_keys", "known_hosts.old", "key.pem"}
+	// paths relative to the scratch directory the harness runs in, so that a case reads the same in every run
 	dir := filepath.Join(c.Tmp, "c07")
+	if wd, err := os.Getwd(); err == nil {
+		if rel, err := filepath.Rel(wd, dir); err == nil && !strings.HasPrefix(rel, "..") {
+			dir = rel
+		}
+	}
 	for _, ct := range contents {
 		for _, fn := range fileNames {
 			if !c.Thorough() && len(ct.tag) > 4 && ct.tag[len(ct.tag)-4:] == "-mut" && fn != "plain.bin" && fn != "known_hosts" {
@@ -300,5 +338,82 @@ func genC07(c *Ctx) {
 			c07Case(c, dir, fn, ct)
 		}
 	}
+	// --- well-formed instances of every signature format, varied in every structural dimension
+	// (c07_formats.go), each under the neutral name, a reserved name and names drawn from the pool ---
+	var insts []c07Inst
+	insts = append(insts, c07RPMs(c.R, c.Thorough())...)
+	insts = append(insts, c07SSH1s(c.R, c.Thorough())...)
+	insts = append(insts, c07PPKs(c.R, c.Thorough())...)
+	insts = append(insts, c07Keystores(c.R, c.Thorough())...)
+	insts = append(insts, c07PGPs(c.R, c.Thorough())...)
+	insts = append(insts, c07PEMs(c.R, c.Thorough())...)
+	// corpus: an encrypted SSH1 key whose ciphertext happens to start with a repeated octet pair
+	insts = append(insts, c07Inst{tag: "wf-ssh1-enc-abab", wf: "SSH1PrivateKey", data: c07SSH1ABAB()})
+	poolPath := func(i int) string { return filepath.Join(fmt.Sprintf("n%d", i), pool[i]) }
+	reserved := []int{}
+	for i, n := range pool {
+		if b := filepath.Base(n); b == "authorized_keys" || b == "known_hosts" {
+			reserved = append(reserved, i)
+		}
+	}
+	for k, in := range insts {
+		ct := c07Content{tag: in.tag, data: in.data, wf: in.wf}
+		picks := []int{0, reserved[k%len(reserved)], 1 + c.R.Intn(len(pool)-1), 1 + (k*7)%(len(pool)-1)}
+		if c.Thorough() {
+			picks = append(picks, 1+c.R.Intn(len(pool)-1), 1+c.R.Intn(len(pool)-1))
+		}
+		done := map[int]bool{}
+		for _, i := range picks {
+			if !done[i] {
+				done[i] = true
+				c07Case(c, dir, poolPath(i), ct)
+			}
+		}
+	}
+	// --- every content kind under every name of the pool ---
+	first := func(prefix string) c07Content {
+		for _, in := range insts {
+			if strings.HasPrefix(in.tag, prefix) {
+				return c07Content{tag: "names-" + strings.TrimPrefix(in.tag, "wf-"), data: in.data, wf: in.wf}
+			}
+		}
+		fmt.Fprintln(os.Stderr, "no instance", prefix)
+		os.Exit(1)
+		return c07Content{}
+	}
+	kinds := []c07Content{
+		first("wf-ppk-v3-ssh-ed25519"), first("wf-jks-1"), first("wf-jceks-2"), first("wf-rpm-res0"), first("wf-ssh1-cipher0"), first("wf-ssh1-cipher1"),
+		first("wf-pgp-public"), first("wf-pgp-private"), first("pgp-message"), first("wf-pem-public-key"), first("wf-pem-foo"),
+		{tag: "names-der", data: der},
+		{tag: "names-b64der", data: []byte(base64.StdEncoding.EncodeToString(der))},
+		{tag: "names-b64der-wrapped", data: []byte(strings.Join(wrap64(fixture("x509/der/rsa-1024.pub")), "\n") + "\n")},
+		{tag: "names-pem-preamble", data: append([]byte("subject=CN = x\nissuer=CN = y\n"), pemKey...)},
+		{tag: "names-jwt", data: jwtWith(map[string]any{"sub": "x"}, map[string]any{"alg": "HS256"})},
+		{tag: "names-uuid", data: []byte("1EC9414C-232A-6B00-B3C8-9E6BDECED846\n")},
+		{tag: "names-sshpub", data: sshPub},
+		{tag: "names-authkeys", data: append(append(append([]byte("# keys\n"), sshPub...), fixture("ssh/id_rsa_1024.pub")...))},
+		{tag: "names-knownhosts", data: append([]byte("example.org,192.0.2.1 "), sshPub...)},
+		{tag: "names-junk", data: []byte("hello world, this is not a key\n")},
+		{tag: "names-binjunk", data: c.R.Bytes(64)},
+		{tag: "names-empty", data: nil},
+	}
+	for _, ct := range kinds {
+		for i := range pool {
+			c07Case(c, dir, poolPath(i), ct)
+		}
+	}
 	os.RemoveAll(dir)
+}
+
+// c07SSH1ABAB: an IDEA-encrypted key (cipher type 1) whose ciphertext starts with the octets
+// x y x y, as one ciphertext in 65536 does.
+func c07SSH1ABAB() []byte {
+	r := NewRng(0xabab)
+	d := c07SSH1(r, 1, 1024, "abab")
+	// the private part starts after header(33) cipher(1) reserved(4) bits(4) n(2+128) e(2+3 or 2+1) comment(4+4)
+	e := 33 + 9 + 2 + 128
+	e += 2 + (int(binary.BigEndian.Uint16(d[e:]))+7)/8
+	e += 4 + 4
+	copy(d[e:], []byte{0x12, 0x34, 0x12, 0x34, 0xff, 0xff})
+	return d
 }
